@@ -284,7 +284,33 @@ def run_case(ctx, case):
         ctx.nontrivial()
     # --- token stream
     try:
-        toks = list(tokenize_deb822_file(_feed(case)))
+        fed = _feed(case)
+        before = list(fed) if isinstance(fed, list) else None
+        if case['it'] == 'list' and len(lines) % 3 == 0:
+            # two tokenizers advanced alternately (this input and an unrelated one): neither may disturb the other
+            ctx.count('tokenizers-interleaved')
+            other = ['Source: x\n', '# c\n', ' cont\n', '\n', 'junk\n', 'Package:  y \n']
+            ga, gb = tokenize_deb822_file(fed), tokenize_deb822_file(list(other))
+            toks, otoks = [], []
+            while ga is not None or gb is not None:
+                for which in ('a', 'b'):
+                    g = ga if which == 'a' else gb
+                    if g is None:
+                        continue
+                    try:
+                        (toks if which == 'a' else otoks).append(next(g))
+                    except StopIteration:
+                        if which == 'a':
+                            ga = None
+                        else:
+                            gb = None
+            if ''.join(t.text for t in otoks) != ''.join(other):
+                ctx.violation('token-stream-differs-from-input', 'the OTHER tokenizer, interleaved with lines=%r, gave %r'
+                              % (lines, [t.text for t in otoks]))
+        else:
+            toks = list(tokenize_deb822_file(fed))
+        if before is not None and fed != before:
+            ctx.violation('input-list-modified-by-the-tokenizer', 'lines=%r now %r' % (before, fed))
     except Exception as e:
         key = _classify_exception(case, e) or 'tokenizer-raises/%s' % type(e).__name__
         ctx.violation(key, 'tokenize_deb822_file(%r) raised %r' % (lines, e))
@@ -298,7 +324,11 @@ def run_case(ctx, case):
             ctx.violation('empty-token', 'lines=%r' % (lines,))
     # --- parse + every text-producing view
     try:
-        f = parse_deb822_file(_feed(case), accept_files_with_error_tokens=True, accept_files_with_duplicated_fields=True)
+        fed = _feed(case)
+        before = list(fed) if isinstance(fed, list) else None
+        f = parse_deb822_file(fed, accept_files_with_error_tokens=True, accept_files_with_duplicated_fields=True)
+        if before is not None and fed != before:
+            ctx.violation('input-list-modified-by-the-parser', 'lines=%r now %r' % (before, fed))
     except Exception as e:
         key = _classify_exception(case, e) or 'parser-raises/%s' % type(e).__name__
         ctx.violation(key, 'parse_deb822_file(%r) raised %r' % (lines, e))
